@@ -148,6 +148,8 @@ def replay(rec: dict) -> bool:
         return ok
     if r.get("oracle") == "timing":
         return not rig.timing_oracle(durs=(r["d"],))
+    if r.get("oracle") == "db-restore":
+        return not rig.db_restore_oracle()
     return False
 
 
@@ -174,6 +176,18 @@ def run(ctx: Ctx):
     rng = ctx.rng.fork("health")
     for k in range(ctx.scale(1500, 12000)):
         cases.append((f"gen:{k}", rig.gen_case(rng, max_ops=ctx.scale(40, 70))))
+
+    # nodes of the shipped scenarios (built by PrimaiteGame.from_config; hosts with unique software names only, see F-22)
+    srng = ctx.rng.fork("scenario")
+    for k in range(ctx.scale(40, 800)):
+        c = rig.gen_scenario_case(srng, max_ops=ctx.scale(30, 50))
+        if c is not None:
+            cases.append((f"scn:{k}", c))
+            ctx.count("scenario:" + c["scenario"])
+    for fname in rig.SCENARIOS:
+        inv = rig.scenario_inventory(fname)
+        ctx.count("scenario-hosts-usable", len(inv["hosts"]))
+        ctx.count("scenario-hosts-skipped-duplicate-software-names", len(inv["skipped"]))
 
     impl_all = _run_impl_all([c for _, c in cases], procs=ctx.scale(1, min(12, os.cpu_count() or 1)))
     lines_all: List[str] = []
